@@ -172,8 +172,12 @@ def model_update(state, L, fl, props_to_copy, stage, next_uid):
             keep.append(r)
     st['fluid'] = keep
     keep = []
-    for r in st['outlet']:
-        if (r['s'] - fl) - L > 1e-6:
+    n_before = len(state['outlet'])
+    for i, r in enumerate(st['outlet']):
+        # zone ids are evaluated once per update, before the transfer: a
+        # particle that arrived in this update and is already past the far
+        # end is deleted by the next update (the statement sets no deadline)
+        if i < n_before and (r['s'] - fl) - L > 1e-6:
             deleted += 1
         else:
             keep.append(r)
@@ -214,7 +218,10 @@ def actual_records(world):
 
 MOVES = [('all', 1.0), ('all', 0.4), ('all', 2.4), ('inlet', 1.0),
          ('fluid', 1.0), ('fluid', -0.4), ('outlet', 1.0), ('first', 2.4),
-         ('last', 1.0), ('all', -0.4), ('inlet', -1.0), ('all', -1.0)]
+         ('last', 1.0), ('all', -0.4), ('inlet', -1.0), ('all', -1.0),
+         # more than a zone length in one update: a fluid particle passes
+         # the outlet plane and the far end of the outlet zone at once
+         ('last', 4.4), ('fluid', 3.6)]
 
 
 def apply_move(st, mv):
@@ -319,7 +326,7 @@ def _job(args):
                                 '%s array differs from the bookkeeping '
                                 'model: unexpected %s, missing %s' % (
                                     nm, a, b), dict(hist=h2)))
-                    if stage == 2:
+                    if stage == 2 and d + 1 >= depth:
                         continue
                     # drop the transient 'copied' marker for future steps:
                     # after a step, outlet particles keep their (possibly
@@ -370,8 +377,8 @@ def run(ctx):
                              moves=[list(m) for m in MOVES[:3]])],
                rule='BFS over histories of <=%d rounds; one round = one of %d '
                     'displacement patterns (all / one array / first / last '
-                    'particle by -0.4, 0.4, 1, 2.4 dx, so several particles '
-                    'cross in one step, cross then return, or skip a zone) '
+                    'particle by -0.4, 0.4, 1, 2.4, 3.6, 4.4 dx, so several particles '
+                    'cross in one step, cross then return, or skip a whole zone) '
                     'followed by inlet.update and outlet.update with stage '
                     'active or not; 4 initial populations x 7 flow '
                     'directions (1-3 D) x props_to_copy none/subset x '
